@@ -810,6 +810,9 @@ func checkC15(c *Ctx, r *Report) {
 	ruleNoCompaction(c, r, "C15.b", "core/validators")
 	// every element filter in these packages is a reviewed one
 	ruleSkipInventory(c, r, "C15.b", loadSkipTable(c.VerifDir), 5, "core/validators/paths")
+	// what the conflict search and the code that turns conflicts into warnings decide on
+	ruleDecisionInputs(c, r, "C15.e", "core/validators/paths", "core/validators/diagnostics")
+	ruleDecisionInputsOf(c, r, "C15.e", "(*core/validators.ApiValidator).Validate", "(*core/validators.ApiValidator).validateControllers", "(*core/validators.ApiValidator).adjustDiagsForConflictingEntry", "(*core/validators.ApiValidator).getRouteEntries", "(*core/validators.ApiValidator).inPlaceAppendPathConflictDiagnostics")
 }
 
 func (a *Atoms) hasIdentType(sub string) bool {
